@@ -49,13 +49,13 @@ Lemma bridge_members_2d :
 Proof. eexists. split; [reflexivity|]. split; [reflexivity|]. split; reflexivity. Qed.
 
 Lemma bridge_fields_3d : exists k1 k2 : fkey,
-  option_map n_fp (normalize (sv_3d gen_save)) = Some (n_fp (canon_norm true k1 k2)) /\
-  option_map n_conc (normalize (sv_3d gen_save)) = Some (n_conc (canon_norm true k1 k2)).
+  option_map n_fp (normalize (sv_3d gen_save)) = Some (n_fp (canon_norm true MByName k1 k2)) /\
+  option_map n_conc (normalize (sv_3d gen_save)) = Some (n_conc (canon_norm true MByName k1 k2)).
 Proof. eexists. eexists. split; cbv; reflexivity. Qed.
 
 Lemma bridge_fields_2d : exists k1 k2 : fkey,
-  option_map n_fp (normalize (sv_2d gen_save)) = Some (n_fp (canon_norm false k1 k2)) /\
-  option_map n_conc (normalize (sv_2d gen_save)) = Some (n_conc (canon_norm false k1 k2)).
+  option_map n_fp (normalize (sv_2d gen_save)) = Some (n_fp (canon_norm false MByName k1 k2)) /\
+  option_map n_conc (normalize (sv_2d gen_save)) = Some (n_conc (canon_norm false MByName k1 k2)).
 Proof. eexists. eexists. split; cbv; reflexivity. Qed.
 
 Lemma bridge_met : forall b : bool,
